@@ -43,14 +43,15 @@ func seqVariants() []seqVariant {
 // seqModels builds the family of later models: base graphs × naming variants × "ghost" dependency (a dependency
 // on a default-named binary that NO source of this model builds — a source that was dropped, or one that does not
 // build it any more — written as an unknown package: the model has no edge for it).
-func seqModels(bases []In) []In {
+func seqModels(bases []In, quick bool) []In {
 	var out []In
 	ghosts := []string{binName(0, 1), binName(0, 2), binName(1, 1), binName(1, 2), binName(2, 1)}
 	for _, b := range bases {
 		for _, v := range seqVariants() {
 			m := clone(b)
 			for i := range m.Ver {
-				m.Ver[i] = (i + len(out)) % len(srcVersions) // the later models also vary the sources' own versions
+				m.Ver[i] = (i + len(out)) % len(srcVersions)  // the later models also vary the sources' own versions
+				m.ArchF[i] = (i + len(out)) % len(archFields) // … and their Architecture fields
 			}
 			m.Alias = v.alias
 			built := map[string]bool{}
@@ -65,8 +66,8 @@ func seqModels(bases []In) []In {
 					continue
 				}
 				for _, i := range []int{0, m.N - 1} {
-					if i == m.N-1 && m.N == 1 {
-						continue
+					if i == m.N-1 && (m.N == 1 || quick) {
+						continue // quick: the ghost dependency sits in the first source only
 					}
 					gm := clone(b)
 					gm.Alias = map[string]string{unknownPkg: g}
@@ -161,7 +162,7 @@ func callSequences(r *mc.Run) {
 	})
 	laterBases = append(laterBases, selfN2...)
 	first = append(first, basesFrom(enumGraphs(2, true), 2, func(g graph) bool { return g.selfDeps(2) == 1 && g.deps(2) == 1 })...)
-	later := seqModels(laterBases)
+	later := seqModels(laterBases, r.Quick())
 	archPairs := [][2]string{{"amd64", "i386"}, {"i386", "amd64"}}
 	var lead []In // thorough: a third model in front
 	if !r.Quick() {
